@@ -31,6 +31,8 @@ type metaTrack struct {
 	points   int
 	loadable int
 	byID     map[string]manifest.FileItem
+	// preRun: bytes of every metadata file as they were before the receiver started
+	preRun map[string][]byte
 }
 
 func newMetaTrack(p *Prepared, outDir string) *metaTrack {
@@ -38,6 +40,13 @@ func newMetaTrack(p *Prepared, outDir string) *metaTrack {
 	for _, it := range p.M.Items {
 		if !it.IsDir {
 			t.byID[it.ID] = it
+		}
+	}
+	t.preRun = map[string][]byte{}
+	if es, err := os.ReadDir(filepath.Join(t.base, ".thruflux_resumedata")); err == nil {
+		for _, e := range es {
+			b, _ := os.ReadFile(filepath.Join(t.base, ".thruflux_resumedata", e.Name()))
+			t.preRun[e.Name()] = b
 		}
 	}
 	return t
@@ -78,15 +87,24 @@ func (t *metaTrack) check(where string) {
 			// receiver legitimately replaces a version written for another chunk size.
 			current := sc.ChunkSize == t.p.Case.Chunk
 			t.loadable++
-			if current {
-				seen[sc.FileID] = true
-			}
 			bm := sc.VerifBitmap()
 			if vlib.F.Replay != "" {
 				fmt.Fprintf(os.Stderr, "  c05 @%s: metadata of %s chunk=%d bitmap=%x\n", where, it.RelPath, sc.ChunkSize, bm)
 			}
 			want := t.p.Files[it.RelPath]
-			got, _ := os.ReadFile(filepath.Join(t.base, filepath.FromSlash(it.RelPath)))
+			got, gerr := os.ReadFile(filepath.Join(t.base, filepath.FromSlash(it.RelPath)))
+			if (gerr != nil || int64(len(got)) != it.Size) && t.preRun[e.Name()] != nil {
+				// The user removed or shortened the output file after the earlier run and this
+				// receiver has not touched either file yet: not a state the receiver produced. It
+				// becomes the receiver's as soon as it rewrites the metadata or brings the output
+				// file (back) to its full length, because from then on a later run would adopt it.
+				if cur, _ := os.ReadFile(filepath.Join(dir, e.Name())); bytes.Equal(cur, t.preRun[e.Name()]) {
+					continue
+				}
+			}
+			if current {
+				seen[sc.FileID] = true
+			}
 			chunk := int64(sc.ChunkSize)
 			for i := int64(0); i*chunk < it.Size; i++ {
 				if int(i/8) >= len(bm) || bm[i/8]&(1<<uint(i%8)) == 0 {
@@ -218,6 +236,14 @@ func modeC05() {
 		}
 		// metadata left by an earlier run with another chunk size
 		for _, pre := range []string{"holes@2", "partial@8", "holes@3"} {
+			cases = append(cases, Case{Tree: tree, Chunk: 4, Streams: s, Conns: 1, Resume: true, NoRootDir: true, Pre: pre})
+		}
+		// the user deleted or shortened the output files after the interrupted run; the hidden
+		// metadata stayed behind
+		for _, pre := range []string{"partial!nodata", "holes!short", "complete!nodata"} {
+			if s == 2 && pre != "partial!nodata" {
+				continue
+			}
 			cases = append(cases, Case{Tree: tree, Chunk: 4, Streams: s, Conns: 1, Resume: true, NoRootDir: true, Pre: pre})
 		}
 	}
